@@ -114,11 +114,28 @@ func main() {
 	for _, k := range []string{"later_notifications_delivered", "later_roots_list_answered", "pending_calls_completed_with_own_answer", "second_calls_succeeded", "second_calls_failed_promptly_on_closed_stream"} {
 		r.Require(r.Counter(k) > 0, "monitor counter %s is zero: the workload did not exercise that part of the oracle", k)
 	}
-	r.Finish("per client kind (Streamable JSON answers, Streamable SSE answers, Streamable GET listening stream, legacy SSE, stdio) a seeded list of scripts = (placement, fragment class, random parameters): a fragment (garbage bytes incl. NUL / invalid UTF-8, non-JSON lines, JSON of the wrong kind, responses with unknown / other-pending / mistyped / missing ids, both or neither of result and error, results and errors of the wrong shape, odd notifications and server requests, deep nesting, frames of 64 KiB-1 / 64 KiB / 64 KiB+1 / 1 MiB / 16 MiB, SSE comments, blank lines, CR / CRLF line ends, data without space, multi-line data, id-only events, BOM, unknown fields, unterminated huge line, duplicated / missing / garbage / late endpoint events, HTTP-level faults: content types, empty 200, 204, 202, 5xx/4xx HTML, redirects, truncated chunked bodies, Content-Length mismatches, bad status lines and headers, abort) is placed before / inside / after / instead of the valid answer of one probe call (ListTools or CallTool), on the GET stream while the probe runs over POST, in the handshake, or on stderr; the exchange ends by the valid answer, by the server closing, or (where the client cannot know) by the caller's 1.5 s deadline. Scripted servers use no library type (raw TCP HTTP/1.1 server, scripted stdio child). Per script, in a child process: the probe returns an error or the valid result (never a foreign-id frame's content, never a result out of nothing), a call pending across the fragment completes with its own answer, CPU of the idle client over 300 ms windows before / after the fragment stays below 20 % of a core (two consecutive windows to call it a spin), later well-formed notification + roots/list request on the long-lived stream are processed (one following frame may be lost to a fragment that leaves a line open), a second call succeeds (or fails promptly when the server closed the stream), Close returns within 10 s (stdio 12 s). A wait is cut short only when the client's reader goroutine is gone or busy-looping. Distinct = (client kind, placement, fragment class, probe outcome) that conformed.",
+	// the same-id family must have been observed on every client kind that ran, for every call type, and on the
+	// handler-sensitive transport in both handler modes
+	for _, k := range kinds {
+		r.Require(r.Counter("sameid_probes_judged_"+k) > 0, "same-id family: no probe of the %s client was judged", k)
+		if k == "streamable-json" {
+			continue // a JSON-mode body holding two values is answered by an error: there is no content to compare
+		}
+		r.Require(r.Counter("sameid_sent_answer_returned_"+k) > 0, "same-id family: no call of the %s client returned the content of the well-formed answer that followed a same-id frame of the wrong kind", k)
+		if k == "legacy-sse" {
+			continue // RegisterNotificationHandler is a no-op on the legacy client
+		}
+		for _, h := range []string{"with-handler", "without-handler"} {
+			r.Require(r.Counter("sameid_sent_answer_returned_"+k+"_"+h) > 0, "same-id family: the %s client was not observed %s", k, h)
+		}
+	}
+	r.Finish("per client kind (Streamable JSON answers, Streamable SSE answers, Streamable GET listening stream, legacy SSE, stdio) a seeded list of scripts = (placement, fragment class, random parameters): a fragment (garbage bytes incl. NUL / invalid UTF-8, non-JSON lines, JSON of the wrong kind, responses with unknown / other-pending / mistyped / missing ids, both or neither of result and error, results and errors of the wrong shape, odd notifications and server requests, deep nesting, frames of 64 KiB-1 / 64 KiB / 64 KiB+1 / 1 MiB / 16 MiB, SSE comments, blank lines, CR / CRLF line ends, data without space, multi-line data, id-only events, BOM, unknown fields, unterminated huge line, duplicated / missing / garbage / late endpoint events, HTTP-level faults: content types, empty 200, 204, 202, 5xx/4xx HTML, redirects, truncated chunked bodies, Content-Length mismatches, bad status lines and headers, abort) is placed before / inside / after / instead of the valid answer of one probe call (ListTools or CallTool), on the GET stream while the probe runs over POST, in the handshake, or on stderr; the exchange ends by the valid answer, by the server closing, or (where the client cannot know) by the caller's 1.5 s deadline. Scripted servers use no library type (raw TCP HTTP/1.1 server, scripted stdio child). Per script, in a child process: the probe returns an error or the valid result (never a foreign-id frame's content, never a result out of nothing), a call pending across the fragment completes with its own answer, CPU of the idle client over 300 ms windows before / after the fragment stays below 20 % of a core (two consecutive windows to call it a spin), later well-formed notification + roots/list request on the long-lived stream are processed (one following frame may be lost to a fragment that leaves a line open), a second call succeeds (or fails promptly when the server closed the stream), Close returns within 10 s (stdio 12 s). A wait is cut short only when the client's reader goroutine is gone or busy-looping. Same-id family (on top of the list above, size fixed by the tier): frames of the wrong kind that bear the id of the call in flight (server-to-client requests roots/list / sampling / ping / unknown / notification-method with that id, the id as string or decimal; id-only objects, id + params, no version, unknown members, method of the wrong type; request-and-response-at-once; the same addressed at the other pending call) x call type (ListTools, CallTool, ListPrompts, ListResources, ReadResource, GetPrompt) x (placement before / between / after the well-formed answer; JSON mode: instead of / in front of / batched with it; GET stream; legacy and stdio stream) x (notification handler registered or not); there the CONTENT the call returns is compared with what the server sent: after a legal server request only the well-formed answer's content may come back, after a malformed id-bearing object that content or an error, and the odd frame's own result only where it has one. Distinct = (client kind, placement, fragment class, probe outcome) that conformed.",
 		[]string{
 			"'all byte streams' is sampled: fixed class list x placements x seeded parameters",
 			"a client that extracts a valid answer from a damaged HTTP response, accepts an id of another JSON type with the same value (\"3\" / 3.0 for 3), or builds a result from a wrongly shaped result object with the right id is accepted (lenient reading is not a survival failure)",
 			"a fragment that does not end in LF is followed by one sacrificial well-formed notification; only frames after it must be processed",
+			"a server-to-client request may bear the id of a pending client call (independent id spaces): it is not that call's answer; a malformed id-bearing object without result and error may fail the call but cannot yield a result",
+			"in a JSON-mode body two JSON values (same-id frame + answer, or a batch array) need not be understood: error or the answer's content",
 			"for scripts that close the legacy / stdio stream the transport is legitimately dead: later calls must fail promptly, not succeed",
 			"stdout closed while the server process stays alive is not driven (C08)",
 			"the spin monitor measures the whole client process (getrusage), the scripted HTTP server lives in the same process but is idle during the windows",
